@@ -141,6 +141,7 @@ type c09ScopeCase struct {
 	Split    bool       `json:"one_scopes_call_per_scope"`
 	Init     int        `json:"direct_condition_before_scopes,omitempty"` // Where("id <> ?", Init) on the chain itself (0 = none)
 	ModelPos string     `json:"model_position"`                           // before | after (Model(..) before or after Scopes(..)); "" for Delete(&T{})
+	Mid      string     `json:"between_scopes_and_finisher,omitempty"`     // "" | session | context | session-skiphooks: a derived handle AFTER Scopes(..) (the pending scopes travel in the cloned statement)
 	Fin      string     `json:"finisher"`
 	Unscoped bool       `json:"unscoped"`
 	Allow    string     `json:"allow_global_update"`
@@ -182,6 +183,16 @@ func c09ScopeChain(h *gorm.DB, c c09ScopeCase, direct bool) *gorm.DB {
 			fns = append(fns, s.fn())
 		}
 		h = h.Scopes(fns...)
+	}
+	if !direct {
+		switch c.Mid {
+		case "session":
+			h = h.Session(&gorm.Session{})
+		case "context":
+			h = h.WithContext(context.WithValue(context.Background(), c09ScopeCtxKey{}, "mid"))
+		case "session-skiphooks":
+			h = h.Session(&gorm.Session{SkipHooks: true})
+		}
 	}
 	if needModel && c.ModelPos != "before" {
 		h = h.Model(c09Model(soft, 0))
@@ -389,6 +400,9 @@ func init() {
 				Unscoped: rng.Intn(4) == 0, Allow: "off", Mode: c09Modes[rng.Intn(len(c09Modes))], ModelPos: []string{"before", "after"}[rng.Intn(2)]}
 			if rng.Intn(12) == 0 {
 				c.Allow = []string{"config", "session"}[rng.Intn(2)]
+			}
+			if rng.Intn(4) == 0 {
+				c.Mid = []string{"session", "context", "session-skiphooks"}[rng.Intn(3)]
 			}
 			perm := rng.Perm(len(xs))
 			next := 0
